@@ -986,11 +986,11 @@ def run(ctx):
         if f.endswith('.json'):
             c = json.load(open(os.path.join(corpus, f)))
             check_fixed(ctx, c['schema'], c['ops'], 'corpus:' + f[:-5])
-    directed_phase(ctx, rng, ctx.scale(60, 300))
-    directed_pk_phase(ctx, rng, ctx.scale(30, 150))
-    directed_cascade_phase(ctx, rng, ctx.scale(30, 150))
+    directed_phase(ctx, rng, ctx.scale(60, 200))
+    directed_pk_phase(ctx, rng, ctx.scale(30, 100))
+    directed_cascade_phase(ctx, rng, ctx.scale(30, 100))
     flush_fixed(ctx)
-    memory_phase(ctx, rng, ctx.scale(140, 1400), ctx.scale(14, 22))
+    memory_phase(ctx, rng, ctx.scale(140, 1000), ctx.scale(14, 22))
 
 
 def replay(ctx, data):
